@@ -91,6 +91,33 @@ theorem C20_rejects :
     parseSpec "* * * * 8L".toList = none ∧ parseSpec "* * * 1-6/2 *".toList = none ∧ parseSpec "* * * * */2".toList = none ∧
     parseSpec "@yearly".toList = none ∧ parseSpec "-1 * * * *".toList = none ∧ parseSpec "1x * * * *".toList = none := by decide
 
+/-- any text that does not split into exactly five white-space separated fields (after macro expansion) is rejected -/
+theorem C20_rejects_field_count (cs : List Char) (h : (fields (expandMacro cs)).length ≠ 5) : parseSpec cs = none := by
+  unfold parseSpec
+  split
+  · rename_i heq
+    rw [heq] at h
+    simp at h
+  · rfl
+
+/-- an accepted text never has an out-of-range value, a descending range, a zero or oversized step, a misplaced
+    `L`/`wL`/`w#n`, or an empty option: the contrapositive of C20_parse_sound, spelled out per option -/
+theorem C20_accepted_options_valid (cs : List Char) (s : Spec) (h : parseSpec cs = some s) :
+    (∀ i, s.minute = .list i → ∀ it ∈ i, it.valid .minute = true) ∧
+    (∀ i, s.hour = .list i → ∀ it ∈ i, it.valid .hour = true) ∧
+    (∀ i, s.day = .list i → ∀ it ∈ i, it.valid .day = true) ∧
+    (∀ i, s.month = .list i → ∀ it ∈ i, it.valid .month = true) ∧
+    (∀ i, s.wday = .list i → ∀ it ∈ i, it.valid .wday = true) := by
+  have hv := parseSpec_valid h
+  simp only [Spec.valid, Bool.and_eq_true] at hv
+  obtain ⟨⟨⟨⟨h1, h2⟩, h3⟩, h4⟩, h5⟩ := hv
+  refine ⟨?_, ?_, ?_, ?_, ?_⟩ <;> intro i hi it hit
+  · rw [hi] at h1; simp only [Field.valid, Bool.and_eq_true, List.all_eq_true] at h1; exact h1.2 it hit
+  · rw [hi] at h2; simp only [Field.valid, Bool.and_eq_true, List.all_eq_true] at h2; exact h2.2 it hit
+  · rw [hi] at h3; simp only [Field.valid, Bool.and_eq_true, List.all_eq_true] at h3; exact h3.2 it hit
+  · rw [hi] at h4; simp only [Field.valid, Bool.and_eq_true, List.all_eq_true] at h4; exact h4.2 it hit
+  · rw [hi] at h5; simp only [Field.valid, Bool.and_eq_true, List.all_eq_true] at h5; exact h5.2 it hit
+
 /-! ## The scheduler -/
 
 section sched
